@@ -204,5 +204,5 @@ PROOFS = [
 # thorough tier: Cookie headers on the real jar -- exactly the listed pairs, each visited once by the two-level iterator
 _HDRS = ["", "a=1", "a=1; b=2", "a=1; b=2; a=3; c=", "a=1; a=1", "k=; l=; m=x", "a=1;b=2", "n=v=w; x=y", "last=", "a=1; b=2; c=3; d=4; e=5; f=6; g=7; h=8; a=9; b=9",
          "SID=31d4d96e407aad42; lang=en-US", "k=1; k=2; k=3", "token=token; token=other; token=third", "a=a; a=b; b=a; b=b; a=c", "x=1;  y=2", "a=\xe9; b=\xff\x80"]
-NATIVE_SWEEPS = [{'name': 'cookie_jar', 'driver': 'jar_rt', 'props': ['C17'], 'what': 'CookieJar::addFromRaw + CookieJar::iterator + has()',
+NATIVE_SWEEPS = [{'name': 'cookie_jar', 'quick': True, 'driver': 'jar_rt', 'props': ['C17'], 'what': 'CookieJar::addFromRaw + CookieJar::iterator + has()',
                   'argvs': [[h.encode('latin-1').hex() or '-'] for h in _HDRS]}]
